@@ -456,9 +456,11 @@ func roundTrip(c *fw.Ctx, r *rng.R, id string, i int) bool {
 		return false
 	}
 	// independent expectation for the value itself
+	// (the stored text need not be canonical — only its base-ten reading is compared)
 	if want, f := model.ParseVarText(typ, text); f == nil {
-		if model.Text(want) != stored {
-			c.Violation("stored-text:"+typ, fmt.Sprintf("a %s value given as %q is stored as %q, expected %q", typ, text, stored, model.Text(want)), input(ex))
+		got, f2 := model.ParseVarText(typ, stored)
+		if f2 != nil || !model.ValueEqual(want, got) {
+			c.Violation("stored-text:"+typ, fmt.Sprintf("a %s value given as %q is stored as %q, which does not denote the same value (%q)", typ, text, stored, model.Text(want)), input(ex))
 			return false
 		}
 	}
